@@ -15,7 +15,7 @@ from common import run_main, hexs, unhexs
 import cmdgen
 
 LEVEL = 'proof'
-MODULES = ['C15', 'C15b', 'C15c']
+MODULES = ['C15', 'C15b', 'C15c', 'C15d']
 
 
 def model_struct(m):
@@ -123,6 +123,92 @@ def transforms_tie(d, argv):
     return None
 
 
+def media_tie(d, rng, n):
+    """media options through the real `main` vs the Lean `readMedia` / `writeMedia` (numbers as opaque identifiers:
+    0 = zero, a radius that is not positive = 0, the default coordinate 1e6 = `inf`): accepted or rejected alike, the
+    same list of media (constants, height, coordinate, radials, boundary type), the same written options, and the
+    model's own round trip flag.  Returns (disagreements, counts)."""
+    base = ['-f', '7', '-w', '8,0,0,1,0,0,11,.001', '--excitation-pulse=1']
+    dis, cnt = [], collections.Counter()
+    for _ in range(n):
+        k = rng.choice([1, 1, 2, 2, 3, 4])
+        opts, argv = [], list(base)
+        for i in range(k):
+            eps = rng.choice([13.0, 5.0, 3.0, 13.0, 0.0])
+            sig = rng.choice([0.005, 0.001, 0.02, 0.005, 0.0])
+            if rng.random() < 0.08:
+                eps, sig = 0.0, 0.0
+            h = 0.0 if (i == 0 and rng.random() < 0.9) else rng.choice([0.0, -1.0, -2.0, 2.0])
+            if eps == 0.0 and sig == 0.0 and rng.random() < 0.8:
+                h = 0.0
+            c = None
+            if rng.random() < (0.85 if i + 1 < k else 0.3):
+                c = rng.choice([10.0, 30.0, 50.0, 1e6])
+            opts.append((eps, sig, h, c))
+            argv.append('--medium=' + ','.join('%g' % x for x in (eps, sig, h) + ((c,) if c is not None else ())))
+        circ = rng.choice([None, None, 'linear', 'circular'])
+        if circ:
+            argv.append('--boundary=' + circ)
+        rc = rng.choice([0, 0, 0, 8, 16])
+        rr = None
+        if rc or rng.random() < 0.1:
+            if rc:
+                argv.append('--radial-count=%d' % rc)
+            rr = rng.choice([0.001, 0.001, 0.002, None, 0.0, -0.001])
+            if rr is not None:
+                argv.append('--radial-radius=%g' % rr)
+        ids = {0.0: 0}
+
+        def nid(x):
+            x = float(x)
+            if x not in ids:
+                ids[x] = len(ids) + 1
+            return ids[x]
+        inf = nid(1e6)
+        toks = ['cmd media', inf, 1 if circ == 'circular' else 0, rc,
+                0 if rr is None else 1 + (0 if rr <= 0 else nid(rr)), k]
+        for (eps, sig, h, c) in opts:
+            toks += [nid(eps), nid(sig), nid(h), 0 if c is None else 1 + nid(c)]
+        ans = d.ask(*toks)
+        r = run_main(argv, want_mininec=True)
+        if r['kind'] == 'crash':
+            dis.append(dict(argv=argv, why='main raised ' + str(r['exc'])))
+            continue
+        m = r['m']
+        cnt['media_accepted' if m is not None else 'media_rejected'] += 1
+        if (m is None) != (ans == 'error'):
+            dis.append(dict(argv=argv, why='media options %s by main, model says %r' % ('rejected' if m is None else 'accepted', ans[:60])))
+            continue
+        if m is None:
+            continue
+        parts = ans.split(' | ')
+        want = ['%d,%d,%d,%d,%d,%d,%d' % (nid(md.permittivity), nid(md.conductivity), nid(md.height), nid(md.coord), md.nradials,
+                                          nid(md.radius), 1 if md.boundary == 'circular' else 0) for md in (m.media or [])]
+        got = parts[0].split()[2:]
+        if got != want:
+            dis.append(dict(argv=argv, why='media of the model %r, Lean model %r' % (want, got)))
+            continue
+        # written options
+        wcirc, wrc, wrr, wmed = 0, 0, '-', []
+        for line in m.as_cmdline().split('\n'):
+            if line.startswith('--medium='):
+                v = [float(x) for x in line.split('=')[1].split(',')]
+                wmed.append('%d,%d,%d,%s' % (nid(v[0]), nid(v[1]), nid(v[2]), '-' if len(v) < 4 else str(nid(v[3]))))
+            elif line.startswith('--boundary='):
+                wcirc = 1 if line.endswith('circular') else 0
+            elif line.startswith('--radial-count='):
+                wrc = int(line.split('=')[1])
+            elif line.startswith('--radial-radius='):
+                wrr = str(nid(float(line.split('=')[1])))
+        wtxt = ' '.join([str(wcirc), str(wrc), wrr] + wmed)
+        if wtxt != parts[1].strip():
+            dis.append(dict(argv=argv, why='written media options %r, Lean writer %r' % (wtxt, parts[1].strip())))
+        elif parts[2].strip() != '1':
+            dis.append(dict(argv=argv, why='the Lean model does not read its own written media back'))
+        cnt['media_%d' % len(want)] += 1
+    return dis, cnt
+
+
 def replay(rp):
     if 'argv' not in rp:
         print('replay: nothing to execute:', rp.get('kind'))
@@ -177,11 +263,29 @@ def run(ck):
         why = c15model.compare(d, argv) or transforms_tie(d, argv)
         if why:
             dis.append(dict(argv=argv, why=why))
+    # media options (valid and invalid combinations) vs the Lean media model
+    mdis, mcnt = media_tie(d, rng, 120 if ck.tier == 'quick' else 2500)
+    for k_, v_ in mcnt.items():
+        ck.count(k_, v_)
+    for x in mdis:
+        # a disagreement on accepted media whose real round trip fails is a violation with that input
+        bad = None
+        try:
+            a2 = x['argv'] + ['--theta=0,10,2', '--phi=0,90,1']
+            bad, acc = roundtrip(a2, with_impedance=False)
+        except Exception as e:
+            bad = 'round trip raised %s: %s' % (type(e).__name__, e)
+        if bad:
+            viol.append(dict(kind='roundtrip', argv=a2, observed=bad))
+        else:
+            dis.append(x)
     ck.stats['disagreements'] = len(dis)
     ck.cov['rule'] = ('accepted command lines from the shared generator: wires/arcs/helices with automatic, explicit, sparse and mixed '
                       'tags, tagged and untagged rotations/translations, scaling, tapering, 1-2 sources with complex voltages in '
                       'absolute and per-object form, 0-3 lumped loads of every class attached in every form and in random order, '
-                      'distributed loads, all media forms; distinct = distinct (option-name set, tag mode, load classes)')
+                      'distributed loads, all media forms; distinct = distinct (option-name set, tag mode, load classes); media options in valid and invalid '
+                      'combinations (1-4 media, ideal ground anywhere, heights, coordinates given or not, boundary type, radials with good / missing / '
+                      'non-positive radius) against the Lean media model')
     ck.assumptions += ["Python's float()/complex()/'%g' round trip is not modelled: numbers are opaque tokens in the Lean model, "
                        "equality after re-read is checked numerically (2e-6) on the implementation",
                        'argparse semantics (append actions, = syntax) are trusted']
